@@ -1,9 +1,11 @@
 /-
 C18 line-protocol driver, part 2: the consumer streams (see harness/internal/c18/consumers.go)
   httpmap <source> <er|re> <exIn> <exOutM> <exOutN> <a|l> <P> <S> <reOutM> <reOutN> <defM> <defN> <probe> <X-In> <q> <secret>
+  httphdr <q|s> <addF> <addV> <setF> <setV1> <setV2> <del1> <del2> <repF> <s|a|l> <search|P> <S> <replace> <X-In> <q> <secret>
 `!` = JSON null / absent.  All byte fields must be ASCII.
 -/
 import CaddyModel.C18.MapH
+import CaddyModel.C18.Headers
 
 namespace CaddyModel.C18
 
@@ -55,6 +57,61 @@ def handleMap : List String → String
           else "ok " ++ Hex.encode (mapProbe false cfg probe ⟨xin, q, [47], secret, []⟩)
       | _, _, _, _, _ => "bad-op"
     | _, _, _, _, _, _, _, _, _, _ => "bad-op"
+  | _ => "bad-op"
+
+/-! ### httphdr -/
+
+def bytesLt : Bytes → Bytes → Bool
+  | [], [] => false
+  | [], _ :: _ => true
+  | _ :: _, [] => false
+  | a :: as, b :: bs => a < b || (a = b && bytesLt as bs)
+
+def insertHdr (e : Bytes × List Bytes) : Hdrs → Hdrs
+  | [] => [e]
+  | x :: xs => if bytesLt e.1 x.1 then e :: x :: xs else x :: insertHdr e xs
+
+def sortHdrs (hs : Hdrs) : Hdrs := hs.foldl (fun acc e => insertHdr e acc) []
+
+def dumpHdrs (hs : Hdrs) : String :=
+  if hs.isEmpty then "-" else
+  ";".intercalate ((sortHdrs hs).map fun e => Hex.encode e.1 ++ "=" ++ ",".intercalate (e.2.map Hex.encode))
+
+def optList : Option Bytes → List Bytes
+  | some b => [b]
+  | none => []
+
+def handleHdr : List String → String
+  | [side, addF, addV, setF, setV1, setV2, del1, del2, repF, kind, ra, rb, rrepl, xin, q, secret] =>
+    match decodeOpt addF, decodeOpt addV, decodeOpt setF, decodeOpt setV1, decodeOpt setV2, decodeOpt del1, decodeOpt del2, decodeOpt repF with
+    | some addF, some addV, some setF, some setV1, some setV2, some del1, some del2, some repF =>
+      match Hex.decode ra, Hex.decode rb, Hex.decode rrepl, Hex.decode xin, Hex.decode q, Hex.decode secret with
+      | some ra, some rb, some rrepl, some xin, some q, some secret =>
+        if !([ra, rb, rrepl, xin, q, secret].all isAscii && [addF, addV, setF, setV1, setV2, del1, del2, repF].all optAscii) then "bad-op"
+        else if side != "q" && side != "s" then "bad-op"
+        else if addF.isNone != addV.isNone || setF.isNone != setV1.isNone || (setF.isNone && setV2.isSome) then "bad-op"
+        else if kind != "s" && kind != "a" && kind != "l" then "bad-op"
+        else if repF.isNone && kind != "s" then "bad-op"
+        else if repF.isSome && kind == "l" && ra.isEmpty then "bad-op"
+        else
+          let ops : HdrOps := ⟨
+            (match addF, addV with | some f, some v => some (f, v) | _, _ => none),
+            (match setF, setV1 with | some f, some v1 => some (f, v1 :: optList setV2) | _, _ => none),
+            optList del1 ++ optList del2,
+            (match repF with
+             | some f => some (f, if kind == "s" then ⟨ra, false, .lit [], rrepl⟩
+                                   else if kind == "a" then ⟨[], true, .anch ra rb, rrepl⟩ else ⟨[], true, .lit ra, rrepl⟩)
+             | none => none)⟩
+          let r : HttpReq := ⟨xin, q, [47], secret, []⟩
+          let init : Hdrs := [(str "X-In", [xin]), (str "X-Fixed", [str "fixed-abc"]), (str "X-Two", [str "one", xin])]
+          if side == "q" then
+            let out := hdrApplyToRequest false (fun hs => expandKnown (hdrEnv r hs)) ops init (str "example.test")
+            "ok " ++ dumpHdrs out.1 ++ " " ++ Hex.encode out.2
+          else
+            "ok " ++ dumpHdrs (hdrApplyTo false (fun _ => expandKnown (hdrEnv r [(str "X-In", [xin])])) ops init)
+              ++ " " ++ Hex.encode (str "example.test")
+      | _, _, _, _, _, _ => "bad-op"
+    | _, _, _, _, _, _, _, _ => "bad-op"
   | _ => "bad-op"
 
 end CaddyModel.C18
